@@ -26,6 +26,32 @@ CHECKS = {
          "every curve; complete enumeration of the lattice.",
          "Lattice, not the continuum: nothing is claimed between lattice points (DESIGN.md section 7). Tolerances are ulp-scaled.",
          "DESIGN.md section 6, C11"),
+ "C07": ("exploration",
+         "exhaustive enumeration of all |A|^n defect patterns of a day window on document-built models through the data classes and predict()",
+         "Every assignment of a defect symbol {ok, T NaN, T +inf, T -inf, usage NaN, usage 0 (electric), both NaN} to each day of a 4-day "
+         "(quick) / 5-day (thorough) window embedded in ordinary days, with and without a usage column, for four daily model documents "
+         "(three shapes and a 4-way split); billing: all temperature patterns on 3 days straddling a period boundary x {ok, NaN read, "
+         "off-cycle} states of the adjoining periods x every aggregation. Oracle: both-or-neither per row, masking, no prediction "
+         "without usage, complete days keep both, column sums == row-wise savings.",
+         "Window length bound n; data classes are part of the path (a pattern they reject is counted as rejected).",
+         "DESIGN.md section 6, C07"),
+ "C13": ("exploration",
+         "exhaustive products on real DailyModel objects: flags x support x maps for _combinations(); layouts x maps x all dates for routing; recomputed criteria on fits",
+         "A: all 16 allow-flag combinations x Gaussian reduction {off,on} x 6-8 data-support patterns x 4 season maps x 4 weekday maps: "
+         "every candidate must be an exact cover of the 3x2 (season, day type) cells, unsplit present, nothing the flags forbid or the data "
+         "cannot support. B: every split layout the library can produce (quick: every 4th) loaded as a document of marker sub-models "
+         "x 16 map combinations x all 731 dates of 2023-2024: model_split and the marker value must be the unique component owning the "
+         "date's cell under the model's own maps. C: real fits; the chosen split must minimise the recomputed criterion.",
+         "Candidate generation is driven through the private _combinations() on the model's own prepared frame (anchored seam).",
+         "DESIGN.md section 6, C13"),
+ "C19": ("exploration",
+         "deviation-bounded enumeration of billing reporting sets x models x every aggregation argument; oracle recomputed from the un-aggregated prediction",
+         "Start day {1,2,15,28,31} x span {20,45,95,130} x zones x usage present/absent x <=1 (quick) / <=2 (thorough) deviations (NaN-temperature "
+         "day, NaN read) at every lattice position x 2-4 billing model documents; each case predicts with None/'none'/'monthly'/'bimonthly' and, "
+         "undeviated, with 8 invalid arguments. One row per calendar period with the right label; sums, mean temperature, root-sum-square "
+         "uncertainty per period and grand totals equal the daily frame's (1e-9 relative); invalid arguments raise.",
+         "Finite stated space; bimonthly blocks counted from the month of the first reporting day.",
+         "DESIGN.md section 6, C19"),
 }
 
 NOT_YET = {}
